@@ -3,6 +3,7 @@ pub mod util;
 pub mod mvalue;
 pub mod mop;
 pub mod mattr;
+pub mod mline;
 #[cfg(kani)]
 mod gen;
 #[cfg(kani)]
@@ -11,5 +12,9 @@ mod c09;
 pub mod c07;
 #[cfg(kani)]
 pub mod c03;
+#[cfg(kani)]
+pub mod c04;
+#[cfg(kani)]
+pub mod c01;
 #[cfg(kani)]
 mod setup;
